@@ -16,6 +16,10 @@ import (
 
 type c14Case struct {
 	P *m.Program `json:"p"`
+	// Q is the same program with the AST-level spelling attributes applied
+	// (quote style, trailing commas, '-' markers); nil = P. The canonical
+	// observation always comes from P.
+	Q *m.Program `json:"q,omitempty"`
 	// Ws[template][token index] is the whitespace written before that token
 	// (only for tokens inside delimiters; absent = canonical).
 	Ws map[string]map[int]string `json:"ws"`
@@ -25,10 +29,18 @@ var c14Spaces = []string{"", " ", "  ", "\t", "\n", "\r\n", " \n ", "\r", "\t "}
 
 func c14Sources(cs *c14Case) (canon, respelt map[string]string, changed, hard int) {
 	canon, respelt = map[string]string{}, map[string]string{}
-	for _, t := range cs.P.Tpls {
-		toks := m.Tokens(t.Body)
-		c, _ := m.Join(toks, nil)
+	q := cs.Q
+	if q == nil {
+		q = cs.P
+	}
+	for ti, t := range q.Tpls {
+		c, _ := m.Join(m.Tokens(cs.P.Tpls[ti].Body), nil)
 		canon[t.Name] = c
+		toks := m.Tokens(t.Body)
+		if c2, _ := m.Join(toks, nil); c2 != c {
+			changed++
+			hard++
+		}
 		ws := cs.Ws[t.Name]
 		r, _ := m.Join(toks, func(i int, can string, must bool) string {
 			w, ok := ws[i]
@@ -54,11 +66,11 @@ func c14Sources(cs *c14Case) (canon, respelt map[string]string, changed, hard in
 // respell draws a spelling for a program: whitespace per boundary, quote
 // styles, trailing commas and '-' markers.
 func c14Respell(t *rapid.T, p *m.Program) *c14Case {
-	cs := &c14Case{P: p, Ws: map[string]map[int]string{}}
+	cs := &c14Case{P: p, Q: cloneProg(p), Ws: map[string]map[int]string{}}
 	density := rapid.IntRange(1, 4).Draw(t, "density")
-	for _, tp := range p.Tpls {
+	for _, tp := range cs.Q.Tpls {
 		// AST-level spellings
-		m.Exprs(tp.Body, func(e *m.E) {
+		exprsOutsideInterp(tp.Body, func(e *m.E) {
 			switch e.K {
 			case "str":
 				if !strings.ContainsAny(e.S, "'\"\\") && !strings.Contains(e.S, "#{") && rapid.IntRange(0, 2).Draw(t, "quote") == 0 {
@@ -92,7 +104,7 @@ func isWS(c byte) bool { return c == ' ' || c == '\t' || c == '\n' || c == '\r' 
 func markTrims(t *rapid.T, ns []*m.N) {
 	for i, n := range ns {
 		switch n.K {
-		case "print", "set", "do", "include", "extends", "use", "import", "from":
+		case "print", "set", "do", "include", "extends", "use", "import", "from", "verbatim":
 			if rapid.IntRange(0, 4).Draw(t, "trim") == 0 {
 				prevWS := i > 0 && ns[i-1].K == "text" && ns[i-1].S != "" && isWS(ns[i-1].S[len(ns[i-1].S)-1])
 				nextWS := i+1 < len(ns) && ns[i+1].K == "text" && ns[i+1].S != "" && isWS(ns[i+1].S[0])
@@ -260,7 +272,7 @@ func init() {
 		}
 		c.Ev.S.Exhaustive["exemplar_boundaries"] = done && !c.Expired()
 		cfg := gen.Cfg{ExprDepth: 3, BodyLen: 3, Nest: 3, Calls: true, Comments: true, Verbatim: true, If: true, For: true, LoopMeta: true, ForIf: true,
-			Set: true, SetCap: true, FilterSec: true, Macros: true, Blocks: true, Do: true}
+			Set: true, SetCap: true, FilterSec: true, Macros: true, Blocks: true, Do: true, HostileText: true}
 		sub.Rapid(c, c.Share(c.Pick(15000, 800000)), func(t *rapid.T) *c14Case {
 			var prog *m.Program
 			switch rapid.IntRange(0, 5).Draw(t, "kind") {
@@ -294,3 +306,33 @@ func c14Class(canon, resp map[string]string) string {
 }
 
 var _ = sb.DefaultDeadlineMs
+
+// exprsOutsideInterp visits every expression except those inside a string
+// interpolation (a double-quoted string nested in "#{...}" is a documented
+// limitation of stick's lexer, and the statement only speaks of strings
+// without interpolation).
+func exprsOutsideInterp(ns []*m.N, f func(e *m.E)) {
+	var walkE func(e *m.E)
+	walkE = func(e *m.E) {
+		if e == nil {
+			return
+		}
+		f(e)
+		if e.K == "interp" {
+			return
+		}
+		for _, a := range e.A {
+			walkE(a)
+		}
+		for _, a := range e.KS {
+			walkE(a)
+		}
+	}
+	m.Walk(ns, func(n *m.N, _ int) {
+		walkE(n.X)
+		walkE(n.Y)
+		for _, el := range n.Elifs {
+			walkE(el.Cond)
+		}
+	})
+}
